@@ -236,6 +236,11 @@ class BCURMulti:
             # All checks pass
             payloads.append(entry_payload)
 
+        if len(payloads) != global_y:
+            raise ValueError(
+                f"Got {len(payloads)} BCUR strings but they announce {global_y} parts"
+            )
+
         # will throw an error if checksum is incorrect
         enc = bcur_decode(data="".join(payloads), checksum=global_checksum)
 
